@@ -537,7 +537,14 @@ func runKern(c *wk.Case) {
 			if np > 0 {
 				sr = 6 * (1 << es)
 			}
-			length := 14 + 6*np
+			// subtables are chained by their length fields; tools that align
+			// subtables count the padding in the length
+			pad := 0
+			if t.Chance(1, 4) {
+				pad = []int{2, 2, 4, 6}[t.Draw(4)]
+				c.Count("kern_subtables_with_padding_counted_in_the_length", 1)
+			}
+			length := 14 + 6*np + pad
 			sub := []byte{0, 0, byte(length >> 8), byte(length), format, flags,
 				byte(np >> 8), byte(np), byte(sr >> 8), byte(sr), byte(es >> 8), byte(es), byte((6*np - sr) >> 8), byte(6*np - sr)}
 			for _, p := range keys {
@@ -554,8 +561,9 @@ func runKern(c *wk.Case) {
 					k[p] = v
 				}
 			}
+			sub = append(sub, make([]byte, pad)...)
 			kernTable = append(kernTable, sub...)
-			c.Logf("kern subtable %d: kind %d pairs %v", st, kind, pairs)
+			c.Logf("kern subtable %d: kind %d pairs %v padding %d", st, kind, pairs, pad)
 		}
 	}
 	b := rebuild(c, w.Disk, map[string][]byte{"kern": kernTable})
@@ -718,8 +726,92 @@ func runLigatures(c *wk.Case) {
 	c.Count("ligature_fonts_checked_(incidental)", 1)
 }
 
+// runCmapFallback: a font as other tools write it, with a character map
+// subtable of higher priority that the library cannot decode (format 10: valid
+// OpenType, not implemented) in front of the one it can.  Reading and laying
+// out must work through the usable subtable, exactly as if the other one were
+// not there.
+func runCmapFallback(c *wk.Case) {
+	t := c.T
+	f := simgen.GenFont(t, simgen.Kind(t.Draw(3)), 0)
+	n := f.NumGlyphs()
+	if n < 3 {
+		c.Trivial()
+		return
+	}
+	m := cmap.Format4{}
+	for i := 1; i < n && i < 100; i++ {
+		m[uint16(0x40+i)] = glyph.ID(i)
+	}
+	f.InstallCMap(m)
+	f.Gsub, f.Gpos, f.Gdef = nil, nil, nil
+	w := simio.NewWriter()
+	if _, err := f.Write(w); err != nil {
+		c.Fail("harness", "cmap-fallback", "Write: %v", err)
+	}
+	plain := w.Disk
+	dir, err := header.Read(bytes.NewReader(plain))
+	if err != nil {
+		c.Fail("harness", "cmap-fallback", "header.Read: %v", err)
+	}
+	raw, err := dir.ReadTableBytes(bytes.NewReader(plain), "cmap")
+	if err != nil {
+		c.Fail("harness", "cmap-fallback", "cmap: %v", err)
+	}
+	tab, err := cmap.Decode(raw)
+	if err != nil {
+		c.Fail("harness", "cmap-fallback", "cmap.Decode: %v", err)
+	}
+	if _, has := tab[cmap.Key{PlatformID: 3, EncodingID: 10}]; has {
+		c.Trivial()
+		return
+	}
+	// format 10 (trimmed array): format, reserved, length, language, start, count, glyph ids
+	k := t.Range(1, 6)
+	sub := []byte{0, 10, 0, 0, 0, 0, 0, byte(20 + 2*k), 0, 0, 0, 0, 0, 0, 0, 0x41, 0, 0, 0, byte(k)}
+	for i := 0; i < k; i++ {
+		sub = append(sub, 0, byte(1+i%(n-1)))
+	}
+	tab[cmap.Key{PlatformID: 3, EncodingID: 10}] = sub
+	other := rebuild(c, plain, map[string][]byte{"cmap": tab.Encode()})
+	c.Sample = map[string]any{"kind": "font with an undecodable higher-priority cmap subtable", "glyphs": n}
+	c.Sig(simgen.Digest(other))
+	var fa, fb *sfnt.Font
+	var ea, eb error
+	c.MustNotPanic("Read", func() { fa, ea = sfnt.Read(bytes.NewReader(plain)); fb, eb = sfnt.Read(bytes.NewReader(other)) })
+	if ea != nil {
+		c.Fail("harness", "cmap-fallback", "own file rejected: %v", ea)
+	}
+	if eb != nil {
+		c.Fail("cmap-fallback", "Read", "the font is rejected once an undecodable (3,10) format 10 subtable is added to its character map: %v", eb)
+	}
+	var la, lb *sfnt.Layouter
+	c.MustNotPanic("NewLayouter", func() { la, ea = fa.NewLayouter(language.English, nil, nil); lb, eb = fb.NewLayouter(language.English, nil, nil) })
+	if ea != nil {
+		c.Trivial()
+		return
+	}
+	if eb != nil {
+		c.Fail("cmap-fallback", "NewLayouter", "NewLayouter fails once an undecodable (3,10) format 10 subtable is added to the character map (the usable (3,1) subtable is still there): %v", eb)
+	}
+	c.Count("cmap_fallback_cases", 1)
+	for i := 0; i < 4; i++ {
+		str := genString(t, mappedRunes(fa))
+		var ga, gb []glyph.Info
+		c.MustNotPanic("Layout", func() {
+			ga = copySeq(la.Layout(str))
+			gb = copySeq(lb.Layout(str))
+		})
+		if d := simgen.DeepDiff(ga, gb, 0, false); d != "" {
+			c.Fail("cmap-fallback", "Layout", "Layout(%q) differs once an undecodable (3,10) subtable is added to the character map: %s", str, d)
+		}
+	}
+}
+
 func run(c *wk.Case) {
-	switch c.T.Weighted(10, 6, 1, 1) {
+	switch c.T.Weighted(20, 12, 2, 2, 1) {
+	case 4:
+		runCmapFallback(c)
 	case 0:
 		runFindLookups(c)
 	case 1:
